@@ -133,9 +133,11 @@ fn setup_env<EXT, DB: Database>(evm: &mut Evm<'_, EXT, DB>, sc: &Value, names: &
 }
 
 fn set_tx<EXT, DB: Database>(evm: &mut Evm<'_, EXT, DB>, tx: &Value, sc: &Value, names: &Names) {
+    *(&mut evm.context.evm.env.tx) = Default::default();
+    let from = tx["from"].as_u64().unwrap_or(sc["sender"].as_u64().unwrap());
+    evm.context.evm.env.block.coinbase = names.addr(tx["cb"].as_u64().unwrap_or(sc["coinbase"].as_u64().unwrap()));
     let t = &mut evm.context.evm.env.tx;
-    *t = Default::default();
-    t.caller = names.addr(sc["sender"].as_u64().unwrap());
+    t.caller = names.addr(from);
     t.gas_limit = tx["gas"].as_u64().unwrap();
     t.gas_price = U256::from(tx["price"].as_u64().unwrap());
     t.value = U256::from(tx["value"].as_u64().unwrap());
@@ -170,6 +172,14 @@ fn set_tx<EXT, DB: Database>(evm: &mut Evm<'_, EXT, DB>, tx: &Value, sc: &Value,
         address: names.addr(e["addr"].as_u64().unwrap()),
         storage_keys: e["keys"].as_array().unwrap().iter().map(|k| B256::from(U256::from(k.as_u64().unwrap()))).collect(),
     }).collect();
+}
+
+fn invalid_json(with_events: bool) -> Value {
+    let mut o = json!({"status": "invalid", "gas_used": 0, "refunded": 0, "out": [], "logs": [], "created": 0});
+    if with_events {
+        o["events"] = json!([]);
+    }
+    o
 }
 
 fn result_json(r: &ExecutionResult, names: &Names, events: Vec<Value>, with_events: bool) -> Value {
@@ -258,7 +268,7 @@ where
                     set_tx(&mut evm, tx, sc, names);
                     let r = evm.transact_commit();
                     let ev: Vec<Value> = $events(&mut evm);
-                    res.push(match r { Ok(r) => result_json(&r, names, ev, o.insp == "rec"), Err(e) => json!({"status": "invalid", "error": format!("{e:?}")}) });
+                    res.push(match r { Ok(r) => result_json(&r, names, ev, o.insp == "rec"), Err(_e) => invalid_json(o.insp == "rec") });
                 }
             } else {
                 for tx in &txs {
@@ -267,7 +277,7 @@ where
                     set_tx(&mut evm, tx, sc, names);
                     let r = evm.transact_commit();
                     let ev: Vec<Value> = $events(&mut evm);
-                    res.push(match r { Ok(r) => result_json(&r, names, ev, o.insp == "rec"), Err(e) => json!({"status": "invalid", "error": format!("{e:?}")}) });
+                    res.push(match r { Ok(r) => result_json(&r, names, ev, o.insp == "rec"), Err(_e) => invalid_json(o.insp == "rec") });
                 }
             }
         }};
